@@ -377,6 +377,7 @@ class TS:
         self.effect_callees = None  # regex: calls reported as ("EFFECT", q, fn, block)
         self.no_inline = set()      # callees never inlined (reported as EFFECT / skipped instead)
         self.handler_nesting = 2    # how many on_task handler frames may nest
+        self.recursion_in_handler = 3   # instances of one function on the stack once a handler frame is there
         self.env_actions = None     # {announced state: [states a client action may put the task into]} - interference at announce points
         self.on_task = self._find_on_task()
         self._hook_effect = {}
@@ -871,7 +872,8 @@ class TS:
         elif q == Q_SCHED:
             ev = ("SCHED", fn.q, b, self._sched_kind(fn, args))
         elif self.effect_callees is not None and self.effect_callees.search(q):
-            ev = ("EFFECT", q, fn.q, b, bool(args and self.task_tracked(fr, args[0], env)))
+            ev = ("EFFECT", q, fn.q, b, bool(args and self.task_tracked(fr, args[0], env)), s,
+                  any(f_.fn.q == self.on_task.q for f_ in frames))
         elif TRY_BRANCH.search(q) and args:
             r = self.pa.root(fn, args[0])
             v = None
@@ -975,7 +977,7 @@ class TS:
                     cf = self.m.fns[tq]
                     if tq not in self.events_of_interest and not (tp and tq in self.state_readers and self._small_reader(tq)):
                         continue
-                    if sum(1 for f in frames if f.fn.q == tq) >= (2 if len(frames) > 4 and any(f.fn.q == self.on_task.q for f in frames) else 1):
+                    if sum(1 for f in frames if f.fn.q == tq) >= (self.recursion_in_handler if len(frames) > 4 and any(f.fn.q == self.on_task.q for f in frames) else 1):
                         continue  # recursion: handled by havoc below
                     inlined = True
                     self.stats["inlined"].add(tq)
@@ -1056,7 +1058,15 @@ class TS:
             if mon3 == "STOP" or (isinstance(mon3, tuple) and mon3 and mon3[0] == "VIOL"):
                 return
             for S in sorted(closure(s2)):
-                push(nxt, s=S, cok=cok2, mon=mon3, env=env2, ev=hev if S != s2 else ev)
+                mon_s = mon3
+                if S != s2:
+                    # the re-entrant call moved the tracked task itself: monitors that care are told where to
+                    tev = ("HAVOC_TO", s2, S, fn.q, b)
+                    mon_s = monitor.on_event(mon3, tev)
+                    self._after(mon_s, report, tev)
+                    if mon_s == "STOP" or (isinstance(mon_s, tuple) and mon_s and mon_s[0] == "VIOL"):
+                        continue
+                push(nxt, s=S, cok=cok2, mon=mon_s, env=env2, ev=hev if S != s2 else ev)
             return
         push(nxt, s=s2, cok=cok2, mon=mon2, env=env2, ev=ev)
 
@@ -1169,6 +1179,8 @@ def fmt_event(m, ev):
         return "EFFECT %s in %s" % (short_name(ev[1]), at(ev[2], ev[3]))
     if k == "BRANCH":
         return "match %s = %s in %s" % (ev[1], "|".join(ev[2]), at(ev[3], ev[4]))
+    if k == "HAVOC_TO":
+        return "that call moved the tracked task %s -> %s (%s)" % (ev[1], ev[2], at(ev[3], ev[4]))
     if k == "ENV":
         return "CLIENT answers the task announced as %s: it becomes %s (and is reported so) right after %s" % (ev[1], ev[2], at(ev[3], ev[4]))
     if k == "EXIT":
